@@ -1,1 +1,296 @@
 //! Verification hook: public wrapper of the gossip / consensus handshakes.
+//!
+//! * `Stream`: the crate's encrypted stream (`noise::Stream` over the default TCP transport), reachable through
+//!   the real preface (`preface::connect` / `preface::accept`), usable as a plain `AsyncRead + AsyncWrite`
+//!   by an out-of-crate peer (honest or adversarial) and accepted by the handshake wrappers below.
+//! * `gossip_*` / `consensus_*`: the four handshake functions (mounted through
+//!   `gossip::verif_handshake` / `consensus::verif_handshake`, children of the modules that own them).
+//! * `Node`: the admission paths of a real `Network` (`run_inbound_stream`, `run_outbound_stream`,
+//!   `maintain_connection`) and read access to its four connection pools.
+//!
+//! Thin wrappers only: no behaviour is added.
+use std::{
+    net::SocketAddr,
+    pin::Pin,
+    sync::Arc,
+    task::{Context, Poll},
+};
+
+use anyhow::Context as _;
+use zksync_concurrency::{ctx, io, net, time};
+use zksync_consensus_crypto::ByteFmt;
+use zksync_consensus_roles::{node, validator};
+
+use crate::{metrics, noise, preface, Config, Network};
+
+/// Class of a handshake error (the variants of `gossip::handshake::Error` / `consensus::handshake::Error`).
+#[derive(Debug, Clone, Copy, PartialEq, Eq)]
+pub enum HsError {
+    /// `GenesisMismatch`
+    Genesis,
+    /// `SessionIdMismatch`
+    Session,
+    /// `PeerMismatch`
+    Peer,
+    /// `Signature(_)`
+    Signature,
+    /// `Stream(_)`
+    Stream,
+}
+
+/// `preface::Endpoint`.
+#[derive(Debug, Clone, Copy, PartialEq, Eq)]
+pub enum Endpoint {
+    /// Consensus network endpoint.
+    ConsensusNet,
+    /// Gossip network endpoint.
+    GossipNet,
+}
+
+/// The crate's encrypted stream over the default transport.
+pub struct Stream(pub(crate) noise::Stream);
+
+impl Stream {
+    /// `preface::connect`: TCP connect, Encryption frame, Noise client handshake, Endpoint frame.
+    pub async fn connect(ctx: &ctx::Ctx, addr: SocketAddr, endpoint: Endpoint) -> ctx::Result<Self> {
+        let e = match endpoint {
+            Endpoint::ConsensusNet => preface::Endpoint::ConsensusNet,
+            Endpoint::GossipNet => preface::Endpoint::GossipNet,
+        };
+        Ok(Self(preface::connect(ctx, addr, e).await?))
+    }
+
+    /// `MeteredStream::accept` followed by `preface::accept`.
+    pub async fn accept(
+        ctx: &ctx::Ctx,
+        listener: &mut net::tcp::Listener,
+    ) -> ctx::Result<(Self, Endpoint)> {
+        let tcp = metrics::MeteredStream::accept(ctx, listener).await?;
+        let (s, e) = preface::accept(ctx, tcp).await?;
+        let e = match e {
+            preface::Endpoint::ConsensusNet => Endpoint::ConsensusNet,
+            preface::Endpoint::GossipNet => Endpoint::GossipNet,
+        };
+        Ok((Self(s), e))
+    }
+
+    /// Encoded noise session id (`stream.id().encode()`), i.e. the bytes the handshakes sign.
+    pub fn id(&self) -> Vec<u8> {
+        self.0.id().encode()
+    }
+
+    /// Remote address of the underlying TCP connection.
+    pub fn peer_addr(&self) -> std::io::Result<SocketAddr> {
+        self.0.peer_addr()
+    }
+
+    /// Local address of the underlying TCP connection.
+    pub fn local_addr(&self) -> std::io::Result<SocketAddr> {
+        self.0.local_addr()
+    }
+}
+
+impl io::AsyncRead for Stream {
+    fn poll_read(
+        mut self: Pin<&mut Self>,
+        cx: &mut Context<'_>,
+        buf: &mut io::ReadBuf<'_>,
+    ) -> Poll<io::Result<()>> {
+        Pin::new(&mut self.0).poll_read(cx, buf)
+    }
+}
+
+impl io::AsyncWrite for Stream {
+    fn poll_write(
+        mut self: Pin<&mut Self>,
+        cx: &mut Context<'_>,
+        buf: &[u8],
+    ) -> Poll<io::Result<usize>> {
+        Pin::new(&mut self.0).poll_write(cx, buf)
+    }
+    fn poll_flush(mut self: Pin<&mut Self>, cx: &mut Context<'_>) -> Poll<io::Result<()>> {
+        Pin::new(&mut self.0).poll_flush(cx)
+    }
+    fn poll_shutdown(mut self: Pin<&mut Self>, cx: &mut Context<'_>) -> Poll<io::Result<()>> {
+        Pin::new(&mut self.0).poll_shutdown(cx)
+    }
+}
+
+/// What `gossip::handshake::{inbound,outbound}` attribute the connection to.
+#[derive(Debug, Clone)]
+pub struct GossipConn {
+    /// `Connection::key`
+    pub key: node::PublicKey,
+    /// `Connection::build_version`
+    pub build_version: Option<semver::Version>,
+}
+
+/// `gossip::handshake::outbound`.
+pub async fn gossip_outbound(
+    ctx: &ctx::Ctx,
+    cfg: &Config,
+    genesis: validator::GenesisHash,
+    stream: &mut Stream,
+    peer: &node::PublicKey,
+) -> Result<GossipConn, (HsError, String)> {
+    let c =
+        crate::gossip::verif_handshake::outbound(ctx, cfg, genesis, &mut stream.0, peer).await?;
+    Ok(GossipConn {
+        key: c.key,
+        build_version: c.build_version,
+    })
+}
+
+/// `gossip::handshake::inbound`.
+pub async fn gossip_inbound(
+    ctx: &ctx::Ctx,
+    cfg: &Config,
+    genesis: validator::GenesisHash,
+    stream: &mut Stream,
+) -> Result<GossipConn, (HsError, String)> {
+    let c = crate::gossip::verif_handshake::inbound(ctx, cfg, genesis, &mut stream.0).await?;
+    Ok(GossipConn {
+        key: c.key.clone(),
+        build_version: c.build_version.clone(),
+    })
+}
+
+/// `consensus::handshake::outbound`.
+pub async fn consensus_outbound(
+    ctx: &ctx::Ctx,
+    me: &validator::SecretKey,
+    genesis: validator::GenesisHash,
+    stream: &mut Stream,
+    peer: &validator::PublicKey,
+) -> Result<(), (HsError, String)> {
+    crate::consensus::verif_handshake::outbound(ctx, me, genesis, &mut stream.0, peer).await
+}
+
+/// `consensus::handshake::inbound`.
+pub async fn consensus_inbound(
+    ctx: &ctx::Ctx,
+    me: &validator::SecretKey,
+    genesis: validator::GenesisHash,
+    stream: &mut Stream,
+) -> Result<validator::PublicKey, (HsError, String)> {
+    crate::consensus::verif_handshake::inbound(ctx, me, genesis, &mut stream.0).await
+}
+
+/// The admission paths and the connection pools of a real `Network` (built with the public `Network::new`).
+pub struct Node(pub Arc<Network>);
+
+impl Node {
+    /// `gossip::Network::run_inbound_stream`: handshake, pool insert, serve, pool remove.
+    pub async fn gossip_run_inbound(&self, ctx: &ctx::Ctx, stream: Stream) -> anyhow::Result<()> {
+        self.0.gossip.run_inbound_stream(ctx, stream.0).await
+    }
+
+    /// `gossip::Network::run_outbound_stream`: dial, preface, handshake, pool insert, serve, pool remove.
+    pub async fn gossip_run_outbound(
+        &self,
+        ctx: &ctx::Ctx,
+        peer: &node::PublicKey,
+        addr: SocketAddr,
+    ) -> anyhow::Result<()> {
+        self.0
+            .gossip
+            .run_outbound_stream(ctx, peer, addr.into())
+            .await
+    }
+
+    /// `consensus::Network::run_inbound_stream`.
+    pub async fn consensus_run_inbound(
+        &self,
+        ctx: &ctx::Ctx,
+        stream: Stream,
+    ) -> anyhow::Result<()> {
+        self.0
+            .consensus
+            .as_ref()
+            .context("not a validator node")?
+            .run_inbound_stream(ctx, stream.0)
+            .await
+    }
+
+    /// `consensus::Network::maintain_connection` (loops until `ctx` is cancelled).
+    pub async fn consensus_maintain_connection(
+        &self,
+        ctx: &ctx::Ctx,
+        peer: &validator::PublicKey,
+    ) -> anyhow::Result<()> {
+        self.0
+            .consensus
+            .as_ref()
+            .context("not a validator node")?
+            .maintain_connection(ctx, peer)
+            .await;
+        Ok(())
+    }
+
+    /// `ValidatorAddrsWatch::announce` on the node's address book (how a validator's address becomes known).
+    pub async fn announce(
+        &self,
+        key: &validator::SecretKey,
+        addr: SocketAddr,
+        timestamp: time::Utc,
+    ) {
+        self.0
+            .gossip
+            .validator_addrs
+            .announce(key, addr, timestamp)
+            .await
+    }
+
+    /// Whether the consensus network exists (the node is a validator with a schedule).
+    pub fn has_consensus(&self) -> bool {
+        self.0.consensus.is_some()
+    }
+
+    /// `gossip.inbound.current()`: (key, remote TCP address of the connection).
+    pub fn gossip_inbound(&self) -> Vec<(node::PublicKey, SocketAddr)> {
+        self.0
+            .gossip
+            .inbound
+            .current()
+            .iter()
+            .map(|(k, v)| (k.clone(), v.stats.peer_addr))
+            .collect()
+    }
+
+    /// `gossip.outbound.current()`.
+    pub fn gossip_outbound(&self) -> Vec<(node::PublicKey, SocketAddr)> {
+        self.0
+            .gossip
+            .outbound
+            .current()
+            .iter()
+            .map(|(k, v)| (k.clone(), v.stats.peer_addr))
+            .collect()
+    }
+
+    /// `consensus.inbound.current()`.
+    pub fn consensus_inbound(&self) -> Vec<(validator::PublicKey, SocketAddr)> {
+        match &self.0.consensus {
+            None => vec![],
+            Some(c) => c
+                .inbound
+                .current()
+                .iter()
+                .map(|(k, v)| (k.clone(), v.peer_addr))
+                .collect(),
+        }
+    }
+
+    /// `consensus.outbound.current()`.
+    pub fn consensus_outbound(&self) -> Vec<(validator::PublicKey, SocketAddr)> {
+        match &self.0.consensus {
+            None => vec![],
+            Some(c) => c
+                .outbound
+                .current()
+                .iter()
+                .map(|(k, v)| (k.clone(), v.peer_addr))
+                .collect(),
+        }
+    }
+}
